@@ -28,7 +28,7 @@ func init() {
 		Run: runRejectFirst,
 	})
 	register(&Rule{
-		ID: "C16.narrowing-exact", Prop: "C16", Also: []string{"C18", "C02"}, Floor: 8, Controls: 1,
+		ID: "C16.narrowing-exact", Prop: "C16", Also: []string{"C18", "C02", "C03"}, Floor: 8, Controls: 1,
 		Doc: "a value obtained by narrowing a big.Float (Int64 / Uint64 / Float64 / Float32) is used only where the accuracy returned by the same call was compared with big.Exact on the way (an encoder that writes, or a bridge that stores, an inexact narrowing changes the number silently); a narrowing whose accuracy is discarded must not reach an encoder, a reflect setter or a number constructor",
 		Run: runNarrowingExact,
 	})
@@ -306,8 +306,32 @@ func runNarrowingExact(rr *RuleRun) {
 							rr.Violation(key, u.Pos(), fmt.Sprintf("%s is the result of %s() whose accuracy is discarded, and it is written by %s: an inexact narrowing would change the number silently", s.x.Name(), s.meth, exprStr(call.Fun)))
 						}
 					}
+					// two approximations compared with each other decide an ordering / equality of the numbers
+					// they stand for: distinct numbers that narrow to the same machine value compare equal
+					for _, u := range uses {
+						be, ok := c.Parent(u).(*ast.BinaryExpr)
+						if !ok || bad {
+							continue
+						}
+						switch be.Op {
+						case token.LSS, token.GTR, token.LEQ, token.GEQ, token.EQL, token.NEQ:
+						default:
+							continue
+						}
+						other := be.X
+						if ast.Unparen(be.X) == ast.Expr(u) {
+							other = be.Y
+						}
+						oo := objOf(info, other)
+						for _, s2 := range sites {
+							if s2.acc == nil && s2.x == oo && oo != nil {
+								bad = true
+								rr.Violation(key, u.Pos(), fmt.Sprintf("%s and %s are both results of %s() whose accuracy is discarded, and they are compared with each other (%s): two different numbers that narrow to the same machine value are then ordered / equated wrongly (use big.Float.Cmp)", s.x.Name(), oo.Name(), s.meth, be.Op))
+							}
+						}
+					}
 					if !bad {
-						rr.Info(key, s.as.Pos(), "accuracy discarded; the value does not reach an encoder or setter")
+						rr.Info(key, s.as.Pos(), "accuracy discarded; the value does not reach an encoder or setter and is not compared with another approximation")
 					}
 					continue
 				}
